@@ -19,6 +19,7 @@ mod real;
 mod report;
 mod sched;
 mod seq;
+mod seqtx;
 mod shim;
 mod util;
 mod waldmg;
@@ -114,6 +115,7 @@ fn main() {
             let prop = a.rest.iter().position(|x| x == "--prop").and_then(|i| a.rest.get(i + 1)).cloned().unwrap_or_default();
             let res = match engine {
                 "seq" => seq::run(&a.tier, a.slice, a.seed, &prop),
+                "seqtx" => seqtx::run(&a.tier, a.slice, a.seed),
                 "crash" => crash::run(&a.tier, a.slice, a.seed),
                 "fault" => fault::run(&a.tier, a.slice, a.seed),
                 "input" => input::run(&a.tier, a.slice, a.seed, &prop),
@@ -139,6 +141,7 @@ fn main() {
 pub fn replay(case: &Value) -> Vec<report::Violation> {
     match case["engine"].as_str().unwrap_or("") {
         "seq" => seq::replay(case),
+        "seqtx" => seqtx::replay(case),
         "crash" => crash::replay(case),
         "fault" => fault::replay(case),
         "input" => input::replay(case),
